@@ -148,9 +148,11 @@ static void write_vector_into_sqltable(sqlite3 *db, char *tabname, dvector *vect
     xfree(sql);
 
     for (i = 0; i < vect->size; i++){
-        lenght = snprintf(NULL, 0, "INSERT INTO %s (value) VALUES (%.18f);", tabname, vect->data[i]);
+        /* the value is bound as a double below: a fixed-point literal keeps 18 decimals only
+         * and loses the significant digits of small numbers */
+        lenght = snprintf(NULL, 0, "INSERT INTO %s (value) VALUES (?);", tabname);
         sql = xmalloc(lenght+1);
-        snprintf(sql, lenght+1, "INSERT INTO %s (value) VALUES (%.18f);", tabname, vect->data[i]);
+        snprintf(sql, lenght+1, "INSERT INTO %s (value) VALUES (?);", tabname);
         #ifdef DEBUG
         printf("%s\n", sql);
         #endif
